@@ -2,7 +2,7 @@
    [xstep] is one call of the exporter API (buffer_qr / buffer_aec / buffer_mm / write_block / rotate_output /
    add_block_parameters / set_active_block_parameters); [x_done] is the ghost list of blocks written so far.
    Only statements live here. *)
-Require Import Base Cbor Schema Block BlockProofs Exporter ExporterProofs.
+Require Import Base Cbor Schema Block BlockProofs Exporter ExporterProofs E2ESpec BlockRead FileProofs SizeProofs.
 Local Open Scope N_scope.
 
 (* a buffer call writes a block precisely when the add made the block full, i.e. when one of the three arrays has
@@ -44,6 +44,16 @@ Print Assumptions C12_block_bound.
 Theorem C12_flush_clears : forall x, let b := x_blk (fst (write_block x)) in b_qrs b = [] /\ b_aecs b = [] /\ b_mms b = [].
 Proof. intros x. pose proof (write_block_fields x) as (_ & _ & H1 & H2 & H3 & _). repeat split; assumption. Qed.
 Print Assumptions C12_flush_clears.
+
+(* a buffer_* or write_block call returns a non-zero byte count exactly when it wrote a block (reachable states of admissible
+   in-range histories: [framed]; the count is then the size of that block, plus the file header for the first block of an output) *)
+Theorem C12_nonzero_iff_written : forall x o hn cur closed, framed x hn cur closed -> adm1 x hn o -> typed_x (fst (xstep x o)) ->
+  match o with
+  | XQr _ _ | XAec _ _ | XMm _ _ | XWb => snd (xstep x o) <> 0 <-> x_done (fst (xstep x o)) <> x_done x
+  | _ => True
+  end.
+Proof. exact ret_nonzero_iff_written. Qed.
+Print Assumptions C12_nonzero_iff_written.
 
 Example C12_nonvacuous :
   let bp := mkBp 1000 2 262143 131071 3 3 in
